@@ -8,7 +8,7 @@
    and run must have its output in Envelope(pieces) (Cut.tla PART 1); it must HAVE an output -
    a panic of the builder/renderer into the host leaves the template without one.
    Diagnostics only (never a verdict): the output of the implementation-shaped model under both
-   readings of the end-of-file trigger is compared with the real output (model drift). *)
+   transcriptions of the line block (Cut!Variants) is compared with the real output (model drift). *)
 EXTENDS Cut, TLC, Json
 
 Known(r) == Len(r.names) <= 9 /\ \A i \in DOMAIN r.names : r.names[i] \in AllNames
@@ -24,10 +24,14 @@ RecOk(r) == Verdict(r)[3]
 Sig(r) == IF r.outcome = "hostpanic" THEN [fam |-> "cut", cause |-> "host-panic", detail |-> r.errclass]
           ELSE LET c == Cause(PiecesOf(r), r.out) IN [fam |-> "cut", cause |-> c[1], detail |-> c[2]]
 
+\* model drift (diagnostic): a model run whose cuts overlap has no output (the real build panics)
+ModelDiffers(toks, variant, out) == LET fin == PRun(PS0(Len(toks)), toks, 1, variant) IN
+                                    ~CutsInRange(toks, fin.cuts) \/ EmitFrom(toks, fin.cuts, 1) # out
+
 (* ---- record-walk skeleton (spec/lib2/Trace_HTMLEscape.tla) + skip/drift counters ---- *)
-VARIABLES l, nbad, njudged, ndany, ndtext, nnotok, nundef
+VARIABLES l, nbad, njudged, ndhead, ndfix, nnotok, nundef
 Obs == ndJsonDeserialize("obs.ndjson")
-Init == l = 1 /\ nbad = 0 /\ njudged = 0 /\ ndany = 0 /\ ndtext = 0 /\ nnotok = 0 /\ nundef = 0
+Init == l = 1 /\ nbad = 0 /\ njudged = 0 /\ ndhead = 0 /\ ndfix = 0 /\ nnotok = 0 /\ nundef = 0
 Next == /\ l <= Len(Obs) /\ l' = l + 1
         /\ LET r == Obs[l]
                v == Verdict(r)
@@ -35,8 +39,8 @@ Next == /\ l <= Len(Obs) /\ l' = l + 1
            IN
            /\ nbad' = nbad + (IF v[3] THEN 0 ELSE 1)
            /\ njudged' = njudged + (IF v[2] THEN 1 ELSE 0)
-           /\ ndany' = ndany + (IF v[2] /\ ModelOutT(toks, TRUE) # r.out THEN 1 ELSE 0)
-           /\ ndtext' = ndtext + (IF v[2] /\ ModelOutT(toks, FALSE) # r.out THEN 1 ELSE 0)
+           /\ ndhead' = ndhead + (IF v[2] /\ ModelDiffers(toks, "head", r.out) THEN 1 ELSE 0)
+           /\ ndfix' = ndfix + (IF v[2] /\ ModelDiffers(toks, "fix", r.out) THEN 1 ELSE 0)
            /\ nnotok' = nnotok + (IF v[1] /\ ~v[2] THEN 1 ELSE 0)
            /\ nundef' = nundef + (IF ~v[1] THEN 1 ELSE 0)
 BadIdx == SelectSeq([i \in 1..Len(Obs) |-> i], LAMBDA i : ~RecOk(Obs[i]))
@@ -47,7 +51,7 @@ Done == l = Len(Obs) + 1 =>
                     [j \in 1..(IF Len(B) < 2000 THEN Len(B) ELSE 2000) |->
                        [k |-> B[j], id |-> Obs[B[j]].id, sig |-> Sig(Obs[B[j]]), nbad |-> nbad]])
           /\ ndJsonSerialize("stats.ndjson",
-               <<[records |-> Len(Obs), judged |-> njudged, bad |-> nbad, drift_eof_any_token |-> ndany,
-                  drift_eof_text_only |-> ndtext, not_ok_on_defined |-> nnotok, ref_undefined |-> nundef]>>)
+               <<[records |-> Len(Obs), judged |-> njudged, bad |-> nbad, drift_head |-> ndhead,
+                  drift_fix |-> ndfix, not_ok_on_defined |-> nnotok, ref_undefined |-> nundef]>>)
 Consumed == TLCGet("stats").diameter - 1 = Len(Obs)
 =============================================================================
